@@ -100,10 +100,10 @@ def main():
         else:
             na.append({'property_id': pid, 'reason': 'check not built yet (work in progress, see DESIGN.md §9)'})
     kinds = {
-        'vt.sched': ('vt/loop.py vt/world.py vt/simnet.py vt/actors.py vt/explore.py',
+        'vt.sched': ('vt/loop.py vt/world.py vt/simnet.py vt/actors.py vt/explore.py vt/clientworld.py vt/transferworld.py',
                      'controlled asyncio world (virtual loop, in-memory network, scripted actors) + deviation-bounded stateless schedule explorer over the real library code'),
         'vt.bfs': ('vt/bfs.py', 'explicit-state search over operation histories of the real objects with canonical-state deduplication'),
-        'vt.enum': ('vt/enumerate.py', 'bounded exhaustive input enumeration against independent reference models'),
+        'vt.enum': ('vt/h/c01.py vt/h/c02.py vt/h/c09.py vt/ref/wire.py', 'bounded exhaustive input enumeration against independent reference models'),
     }
     manifest = {
         'version': 1,
